@@ -26,7 +26,8 @@ def run(ctx):
         ctx.stage_audit()
         ctx.stage_correspondence(exe, ["corr", ctx.seed, ctx.tier])
     # the property's own statement on the implementation (identity, text-book defaults,
-    # idempotence, frame properties); also the search for a concrete failing input
+    # idempotence, frame properties, records over several layers against the text-book values
+    # of each layer's own cell); also the search for a concrete failing input
     ctx.stage_property_mode(exe, ["prop", ctx.seed, ctx.tier])
     return ctx.finish(trusted_base=TRUSTED)
 
